@@ -141,7 +141,15 @@ def prop(c):
     from vlib import capture
     from vlib import testmc
 
-    case = base_case(c["variant"], c["seed"])
+    case = c["scheme"] if "scheme" in c else base_case(c["variant"], c["seed"])
+    if "k_frac" in c:
+        # random sub-check: the fault-free run fixes N, then k is placed at the drawn fraction of it
+        with warnings.catch_warnings():
+            warnings.simplefilter("ignore")
+            ff = fault_free(case, c["method"], c["max_nfev"])
+        c = dict(c, n=ff["count"], per_eval=sum(len(d["megacomplex"]) for d in case["datasets"]))
+        c["k"] = 1 + int(c["k_frac"] * (c["n"] - 1))
+        c.setdefault("variant", "random")
     marker = Marker(f"injected fault at evaluation {c['k']}")
     plan = {"kind": c["kind"], "k": c["k"]}
     if c["kind"] == "raise_at":
@@ -187,8 +195,9 @@ def prop(c):
             # whatever the numerical code raises on a non-finite matrix may propagate; nothing else to check
             return {"nontrivial": 1 < k < n, "tags": tags + ["nonfinite_with_raise_exception:" + r["outcome"]]}
         if r["outcome"] == "raised":
-            ok_before = [e for e in r["log"] if e["ok"]]
-            check(isinstance(r["exc"], InitialParameterError) and not ok_before, "nonfinite.exception_escaped" + suffix,
+            # an evaluation is good iff all of its model evaluations were: the first objective evaluation is calls 1..per_eval
+            good_evals = [e for e in r["log"] if e["ok"] and e["k"] > pe] if first else [e for e in r["log"] if e["ok"]]
+            check(isinstance(r["exc"], InitialParameterError) and (first or not good_evals), "nonfinite.exception_escaped" + suffix,
                   lambda: f"{type(r['exc']).__name__}: {r['exc']} propagated {via(r['exc'])} (fault at k={k} of {n}, phase {phase})")
             return {"nontrivial": False, "tags": tags}
         res = r["result"]
@@ -206,13 +215,18 @@ def prop(c):
 def _check_result_from_good_vector(case, c, r, res, capture, suffix):
     from vlib import testmc
 
-    rates = [float(res.optimized_parameters.get(l).value) for l in case["megacomplexes"]["m1"]["rates"]]
     good = [e["rates"] for e in r["log"] if e["ok"]]
-    check(any(np.allclose(rates, g, rtol=1e-12, atol=0) for g in good), "contain.parameters_not_from_a_good_evaluation" + suffix,
-          lambda: f"optimized rates {rates} were never evaluated without error (good: {good[-4:]})")
+    used = {m for d in case["datasets"] for m in d["megacomplex"]}
+    for mname, m in case["megacomplexes"].items():
+        if not m.get("fault") or mname not in used:
+            continue
+        rates = [float(res.optimized_parameters.get(l).value) for l in m["rates"]]
+        check(any(len(g) == len(rates) and np.allclose(rates, g, rtol=1e-12, atol=0) for g in good), "contain.parameters_not_from_a_good_evaluation" + suffix,
+              lambda: f"optimized rates {rates} of {mname} were never evaluated without error (good: {good[-4:]})")
     # datasets equal a fault-free evaluation at exactly those parameters
     c2 = copy.deepcopy(case)
-    c2["megacomplexes"]["m1"]["fault"] = False
+    for m in c2["megacomplexes"].values():
+        m["fault"] = False
     for grp, vs in c2["parameters"].items():
         c2["parameters"][grp] = [float(res.optimized_parameters.get(f"{grp}.{j+1}").value) for j in range(len(vs))]
     with warnings.catch_warnings():
@@ -225,9 +239,17 @@ def _check_result_from_good_vector(case, c, r, res, capture, suffix):
         v = ds["weighted_residual"] if "weighted_residual" in ds else ds["residual"]
         got.append(v.values.ravel())
     got = np.sort(np.concatenate(got))
-    npen = obj.size - got.size  # penalties (if any) are the last entries of the objective: compare the data part
-    want = np.sort(obj[: obj.size - npen]) if npen > 0 else np.sort(obj)
-    check(got.shape == want.shape and np.allclose(got, want, rtol=1e-9, atol=1e-12), "contain.datasets_not_from_those_parameters" + suffix,
+    want = np.sort(obj)  # data entries of all groups plus the penalties: got must be a sub-multiset
+    ok = got.size <= want.size
+    jj = 0
+    for v in got:
+        while jj < want.size and want[jj] < v - (1e-9 * abs(v) + 1e-12):
+            jj += 1
+        if jj >= want.size or abs(want[jj] - v) > 1e-9 * abs(v) + 1e-12:
+            ok = False
+            break
+        jj += 1
+    check(ok, "contain.datasets_not_from_those_parameters" + suffix,
           lambda: "result datasets are not the evaluation at the reported parameters")
 
 
@@ -286,6 +308,22 @@ def prop_invalid(c):
     return {"nontrivial": True, "tags": [c["kind"]]}
 
 
+def random_fault_cases():
+    from hypothesis import strategies as st
+
+    @st.composite
+    def cases(draw):
+        scheme = draw(schemes.schemes(allow_full=False, max_datasets=2, labels="neutral"))
+        for m in scheme["megacomplexes"].values():
+            m["fault"] = True
+        kind = draw(st.sampled_from(["raise_at", "raise_at", "nan_at", "inf_at"]))
+        return {"scheme": scheme, "method": draw(st.sampled_from(METHODS)), "max_nfev": draw(st.integers(2, 5)), "kind": kind,
+                "k_frac": draw(st.floats(0, 1)), "verbose": draw(st.integers(0, 3)) == 0,
+                "raise_exception": draw(st.booleans()) if kind == "raise_at" else False}
+
+    return cases()
+
+
 PROPERTY = Property(
     id="C15",
     level="fault_enumeration",
@@ -298,6 +336,8 @@ PROPERTY = Property(
     ),
     subs=[
         Sub("faults", prop=prop, enumerate=enumerate_cases, exhaustive=True, doc="fault position k enumerated exhaustively for each scheme/method"),
+        Sub("faults_random", prop=prop, strategy=random_fault_cases, budget={"quick": 320, "thorough": 20000},
+            doc="random schemes of the C02 space (every megacomplex faulting), fault position drawn as a fraction of the fault-free run"),
         Sub("invalid", prop=prop_invalid, enumerate=invalid_cases, exhaustive=True),
     ],
     assumptions=[
